@@ -7,10 +7,15 @@
   * offset pagination, forward and reverse, for every page size: page k is the k-th chunk of the matching
     entries, the pages tile the listing without omission or repetition, `next` is empty exactly at the
     end, and the reported total is the number of matching entries.
-  Not proved: pagination by key (it needs the stored lists to be sorted in key order; the forward direction
-  is checked by the stream, the reverse direction is the known finding C13 in the SDK's paginator).
+  * pagination by key, forward: on a listing sorted by key (every reachable store is: `OrbState.Srt`), the page
+    requested with the `next` key of the previous page starts exactly at the entry that key names, so the
+    pages again tile the matching entries.
+  Not proved: pagination by key in reverse — it is the known finding C13 (the SDK's paginator revisits entries
+  when a key is a proper prefix of another).
 -/
 import Orbiter.Lemmas.Reach
+import Orbiter.Lemmas.Order
+import Orbiter.Lemmas.Sorted
 namespace Orbiter.C13
 open Orbiter
 
@@ -141,30 +146,6 @@ theorem c13_offset_past_end {α} (entries : List (Bytes × α)) (pre : Bytes) (L
 
 /-! ### the protocol filter of a listing is exact -/
 
-theorem uint8_ofNat_inj {x y : Nat} (hx : x < 256) (hy : y < 256) (h : UInt8.ofNat x = UInt8.ofNat y) : x = y := by
-  have := congrArg UInt8.toNat h
-  simp only [UInt8.toNat_ofNat'] at this
-  omega
-
-theorem encInt32_length (i : Int) : (encInt32 i).length = 4 := by simp [encInt32]
-
-/-- The key prefix of a protocol number is injective on the int32 range. -/
-theorem encInt32_inj {a b : Int} (ha : -2147483648 ≤ a ∧ a < 2147483648) (hb : -2147483648 ≤ b ∧ b < 2147483648)
-    (h : encInt32 a = encInt32 b) : a = b := by
-  unfold encInt32 at h
-  simp only [List.cons.injEq, and_true] at h
-  obtain ⟨h3, h2, h1, h0⟩ := h
-  generalize hua : ((a + 2147483648) % 4294967296).toNat = ua at h3 h2 h1 h0
-  generalize hub : ((b + 2147483648) % 4294967296).toNat = ub at h3 h2 h1 h0
-  have ra : ua < 4294967296 := by omega
-  have rb : ub < 4294967296 := by omega
-  have e3 := uint8_ofNat_inj (by omega) (by omega) h3
-  have e2 := uint8_ofNat_inj (by omega) (by omega) h2
-  have e1 := uint8_ofNat_inj (by omega) (by omega) h1
-  have e0 := uint8_ofNat_inj (by omega) (by omega) h0
-  have : ua = ub := by omega
-  omega
-
 theorem take_prefix_cnt (k : CntKey) : k.enc.take 4 = encInt32 k.srcProto := by
   unfold CntKey.enc
   rw [List.append_assoc, List.append_assoc, List.take_append_of_le_length (by rw [encInt32_length]; exact Nat.le_refl 4)]
@@ -224,6 +205,76 @@ theorem c13_entries_decode (o : OrbState) (hi : o.Inv) :
     obtain ⟨p, cp, _, _, hp⟩ := amtEntry_parse (hi.amt_valid e he)
     have hs := (hi.amt_valid e he).1
     simp [amtEntryOfKey, hs, hp]
+
+/-! ### pagination by key, forward -/
+
+/-- In a list sorted by key, the entries not below the key of `x` are `x` and what follows it. -/
+theorem filter_ge_sorted {α} (l₁ l₂ : List (Bytes × α)) (x : Bytes × α)
+    (hs : (l₁ ++ x :: l₂).Pairwise fun a b => bytesLt a.1 b.1 = true) :
+    (l₁ ++ x :: l₂).filter (fun e => bytesLe x.1 e.1) = x :: l₂ := by
+  rw [List.pairwise_append] at hs
+  obtain ⟨_, h2, h3⟩ := hs
+  rw [List.pairwise_cons] at h2
+  rw [List.filter_append]
+  have e1 : l₁.filter (fun e => bytesLe x.1 e.1) = [] := by
+    rw [List.filter_eq_nil_iff]
+    intro e he
+    simp [bytesLe, h3 e he x List.mem_cons_self]
+  have e2 : (x :: l₂).filter (fun e => bytesLe x.1 e.1) = x :: l₂ := by
+    rw [List.filter_eq_self]
+    intro e he
+    rcases List.mem_cons.mp he with rfl | hm
+    · simp [bytesLe, bytesLt_irrefl]
+    · simp [bytesLe, bytesLt_asymm (h2.1 e hm)]
+  rw [e1, e2, List.nil_append]
+
+/-- A forward page requested by key starts exactly at the entry the key names. -/
+theorem c13_key_page {α} (entries : List (Bytes × α)) (pre : Bytes) (L : Nat) (hL : 0 < L)
+    (hsorted : entries.Pairwise fun a b => bytesLt a.1 b.1 = true)
+    (l₁ l₂ : List (Bytes × α)) (x : Bytes × α) (hsplit : matching entries pre false = l₁ ++ x :: l₂)
+    (hlong : pre.length < x.1.length) :
+    ∃ r, paginate entries pre { key := x.1.drop pre.length, limit := L } = some r ∧
+      r.items = ((x :: l₂).take L).map (·.2) ∧
+      r.next = (match (x :: l₂).drop L with | e :: _ => e.1.drop pre.length | [] => []) := by
+  have hmatch : matching entries pre false = entries.filter fun e => e.1.take pre.length == pre := by
+    unfold matching; rfl
+  have hxin : x ∈ entries.filter fun e => e.1.take pre.length == pre := by
+    rw [← hmatch, hsplit]; simp
+  have hxpre : x.1.take pre.length = pre := by simpa using (List.mem_filter.mp hxin).2
+  have hkey : pre ++ x.1.drop pre.length = x.1 := by
+    have := List.take_append_drop pre.length x.1
+    rw [hxpre] at this
+    exact this
+  have hne : (x.1.drop pre.length).isEmpty = false := by
+    cases hd : x.1.drop pre.length with
+    | nil =>
+      have := congrArg List.length hd
+      simp only [List.length_drop, List.length_nil] at this
+      omega
+    | cons a as => rfl
+  have hsf : (entries.filter fun e => e.1.take pre.length == pre).Pairwise fun a b => bytesLt a.1 b.1 = true :=
+    List.Pairwise.sublist List.filter_sublist hsorted
+  unfold paginate
+  have hL0 : (L == 0) = false := by simpa using Nat.ne_of_gt hL
+  simp only [hL0, Bool.false_eq_true, ↓reduceIte, Nat.lt_irrefl, decide_false, Bool.false_and, hne, Bool.not_false, hkey]
+  rw [← hmatch, hsplit] at hsf ⊢
+  rw [filter_ge_sorted l₁ l₂ x hsf]
+  exact ⟨_, rfl, rfl, rfl⟩
+
+/-- The stored counts, as the by-source listing sees them, are sorted by key in every good state. -/
+theorem c13_counts_listing_sorted (o : OrbState) (hg : o.Good) :
+    (o.counts.map fun e => (e.1.enc, e)).Pairwise fun a b => bytesLt a.1 b.1 = true := by
+  have := hg.2.cnt
+  unfold SortedBy at this
+  rw [List.pairwise_map] at this ⊢
+  exact this
+
+theorem c13_amounts_listing_sorted (o : OrbState) (hg : o.Good) :
+    (o.amounts.map fun e => (e.1.enc, e)).Pairwise fun a b => bytesLt a.1 b.1 = true := by
+  have := hg.2.amt
+  unfold SortedBy at this
+  rw [List.pairwise_map] at this ⊢
+  exact this
 
 /-! ### the by-destination index -/
 
